@@ -1,6 +1,7 @@
 import MgpuProofs.C09Res
 import MgpuProofs.C09Pool
 import MgpuProofs.C09Once2
+import MgpuProofs.C09Live
 /-! # C09 — work-groups are dispatched exactly once within compute-unit resources
 
 Statements about the models in `MgpuModel/C09_Res.lean` (resource masks and one CU's
@@ -253,5 +254,76 @@ theorem completion_counted_once' (cp : CP) (i id : Nat) (h : DCI cp) (hi : i < c
       (∀ e' ∈ ((completeOne cp i id).disp i).inflight, e'.1 ≠ id) ∧
       DCI (completeOne cp i id)) :=
   completion_counted_once cp i id h hi
+
+/-- **A response is sent only after the whole grid was mapped, in order.** In any run with distinct
+    launch ids (`DCI` and the trace invariant `GI` hold in every reachable state: `accounting_inv`,
+    `run_GI`), at the moment `completeKernel` emits the response of launch `k`, the `MapWGReq`s of
+    that launch in the trace are exactly work-groups `0 … NumWG−1`, once each, and this is its
+    first response. -/
+theorem response_only_after_grid_mapped (cp : CP) (i : Nat) (k : Kern) (p : List Nat) (cp' : CP)
+    (hdc : DCI cp) (hg : GI cp p) (hk : (cp.disp i).kern = some k)
+    (hkc : kernelCompleted (cp.disp i) = true) (h : completeKernel cp i = (cp', true)) :
+    mapsOf cp'.log k.id = List.range k.numWG ∧ rspCount cp'.log k.id = 1 :=
+  rsp_only_after_grid_mapped_step cp i k p cp' hdc hg hk hkc h
+
+/-! ## progress: every enabled action fires, and a fruitless tick is a wait -/
+
+/-- **Overhead counters run down**: a dispatcher with `cycleLeft = c+1` only decrements it and
+    reports progress (so it is ticked again). -/
+theorem overhead_counts_down' (cp : CP) (i c : Nat) (h : (cp.disp i).cycleLeft = c + 1) :
+    dispTick cp i = (cp.setDisp i { cp.disp i with cycleLeft := c }, true) :=
+  overhead_counts_down cp i c h
+
+/-- **A completed kernel is answered** by the next tick of its dispatcher as soon as the
+    driver-facing port has room. -/
+theorem completed_kernel_is_answered' (cp : CP) (i : Nat) (k : Kern) (hc : (cp.disp i).cycleLeft = 0)
+    (hk : (cp.disp i).kern = some k) (hkc : kernelCompleted (cp.disp i) = true) (hr : 0 < cp.drvRoom) :
+    (dispTick cp i).2 = true ∧ (dispTick cp i).1.log = .rsp k.id :: cp.log :=
+  completed_kernel_is_answered cp i k hc hk hkc hr
+
+/-- **A placed group is sent** as soon as the CU-facing port has room (the `currWG` retry), and
+    **an admitted group is sent** in the same call when the port has room. -/
+theorem placed_or_admitted_group_is_sent (cp : CP) (i : Nat) (hr : 0 < cp.cuRoom) :
+    (∀ dl, cp.fault = none → (cp.disp i).currWG = some dl →
+      (dispatchNextWG cp i).2 = true ∧
+      (dispatchNextWG cp i).1.log = .map cp.nextReq dl.cu dl.launch dl.idx dl.locs :: cp.log) ∧
+    (∀ cp1 dl, (cp.disp i).currWG = none → (cp.disp i).alg.hasNext = true →
+      algNext cp i = (cp1, some dl) → cp1.fault = none →
+      (dispatchNextWG cp i).2 = true ∧
+      (dispatchNextWG cp i).1.log = .map cp.nextReq dl.cu dl.launch dl.idx dl.locs :: cp.log) :=
+  ⟨fun dl hf hcw => placed_group_is_sent cp i dl hf hcw hr,
+   fun cp1 dl hcw hn ha hf => admitted_group_is_sent cp i cp1 dl hcw hn ha hf hr⟩
+
+/-- **The owner consumes the head completion message**: if the message at the head of the CU-facing
+    port names a request in flight at dispatcher `i`, its `processMessagesFromCU` reports progress
+    and afterwards none of the message's ids is in flight at `i` any more (ids of other dispatchers
+    stay at the head for their owners — the repaired behaviour). -/
+theorem own_completion_is_consumed' (cp : CP) (i n : Nat) (ids : List Nat) (rest : List (List Nat))
+    (hdc : DCI cp) (hi : i < cp.disps.length) (hcu : cp.cuIn = ids :: rest)
+    (hmine : ∃ id ∈ ids, (cp.disp i).inflight.any (·.1 = id) = true) :
+    (procMsgs i (n + 1) cp).2 = true ∧
+    ∀ id ∈ ids, ¬ ((procMsgs i (n + 1) cp).1.disp i).inflight.any (·.1 = id) = true :=
+  own_completion_is_consumed cp i n ids rest hdc hi hcu hmine
+
+/-- **`quiescent_is_waiting`.** A dispatcher tick that reports no progress emits nothing and means:
+    no overhead is pending, and the dispatcher is idle, or its answer waits for room in the
+    driver-facing port (state unchanged), or it is not complete and either nothing is placed (no CU
+    admitted the next group, or all groups are mapped and completions are awaited), or the placed
+    group waits for room in the CU-facing port, or a fault stopped it; and the completion message at
+    the head of the port (if any) names none of its in-flight requests. Each disjunct is resolved by
+    an event that wakes an Akita ticking component (port free, message delivered) or by another
+    dispatcher's progress. -/
+theorem quiescent_is_waiting' (cp : CP) (i : Nat) (cp' : CP) (hdc : DCI cp)
+    (h : dispTick cp i = (cp', false)) :
+    (cp.disp i).cycleLeft = 0 ∧ cp'.log = cp.log ∧
+    ((cp.disp i).kern = none ∨ ∃ k, (cp.disp i).kern = some k ∧
+      ((kernelCompleted (cp.disp i) = true ∧ cp.drvRoom = 0 ∧ cp' = cp) ∨
+       (kernelCompleted (cp.disp i) = false ∧
+         ((cp'.disp i).currWG = none ∨ cp'.fault.isSome = true ∨ cp'.cuRoom = 0)))) ∧
+    (cp'.fault.isSome = false → cp'.cuIn = [] ∨ ∃ ids rest, cp'.cuIn = ids :: rest ∧
+      ∀ id ∈ ids, ¬ (cp'.disp i).inflight.any (·.1 = id) = true) :=
+  quiescent_is_waiting cp i cp' hdc h
+
+example : (dispTick (run (mkCP demoCfg 8 demoPool) (demoOps.take 8)) 0).2 = false := by decide
 
 end C09
